@@ -577,3 +577,674 @@ Lemma await_read_io sel L w x :
   | Halt o w' => wstep w w' /\ okhalt w o
   end.
 Proof. apply await_read_ok. rewrite io_fuel_eq. unfold sm. destruct (stopped w); lia. Qed.
+
+(* ------------------------------------------------------------------------------------------ *)
+(* Part E: the invariant of a Request and the operations the model applies to its parser        *)
+(* ------------------------------------------------------------------------------------------ *)
+
+Definition pgood (p : sp) : Prop :=
+  RI p /\ stream_ok p /\ bytes_ok (raw_bytes p) /\ 24 <= len (buffer p) < SIZE_LIMIT.
+(* request, active stream and buffer size are kept *)
+Definition pkeep (p p' : sp) : Prop :=
+  sreq p' = sreq p /\ stream p' = stream p /\ len (buffer p') = len (buffer p).
+(* buffered bytes: stream data not yet consumed + protocol bytes not yet parsed *)
+Definition psize (p : sp) : nat := (length (stream_buffer p) + length (raw_bytes p))%nat.
+
+Definition wr_inv (r : rstate) : Prop := wr_inv_at (r_role (sreq (rsp r))) (rwriteable r) (stream (rsp r)).
+Definition rgood (r : rstate) : Prop := pgood (rsp r) /\ wr_inv r.
+Definition rsize (r : rstate) : nat := psize (rsp r).
+
+Lemma pkeep_refl p : pkeep p p.
+Proof. repeat split. Qed.
+
+Lemma pkeep_trans a b c : pkeep a b -> pkeep b c -> pkeep a c.
+Proof. intros (A1 & A2 & A3) (B1 & B2 & B3). repeat split; congruence. Qed.
+
+Lemma psize_bound p : RI p -> (psize p <= length (buffer p))%nat.
+Proof.
+  intros H. pose proof (RI_len_parsed p H). pose proof (RI_len_raw p H). destruct H as (Q1 & Q2 & Q3 & Q4 & _).
+  unfold psize. unfold len in *. lia.
+Qed.
+
+Lemma pgood_transfer p p' : pgood p -> RI p' -> pkeep p p' -> bytes_ok (raw_bytes p') -> pgood p'.
+Proof.
+  intros (G1 & G2 & G3 & G4) R' (K1 & K2 & K3) B'. split; [exact R'|]. split; [|split; [exact B'|rewrite K3; exact G4]].
+  apply (stream_ok_eq p p' K2). exact G2.
+Qed.
+
+Lemma rgood_transfer r p' wr lk : rgood r -> RI p' -> pkeep (rsp r) p' -> bytes_ok (raw_bytes p') ->
+  wr = rwriteable r -> rgood (mkR p' wr lk).
+Proof.
+  intros [G W] R' K B' ->. split; [cbn [rsp]; eapply pgood_transfer; eassumption|].
+  destruct K as (K1 & K2 & K3). unfold wr_inv in *. cbn [rsp rwriteable]. rewrite K1, K2. exact W.
+Qed.
+
+(* everything but the pending output *)
+Definition osame (p p' : sp) : Prop :=
+  buffer p' = buffer p /\ parsed_start p' = parsed_start p /\ gap_start p' = gap_start p /\
+  raw_start p' = raw_start p /\ free_start p' = free_start p /\ sreq p' = sreq p /\ stream p' = stream p /\
+  payload_rem p' = payload_rem p /\ padding_rem p' = padding_rem p /\ sst p' = sst p.
+
+Lemma osame_refl p : osame p p.
+Proof. repeat split. Qed.
+
+Lemma osame_trans a b c : osame a b -> osame b c -> osame a c.
+Proof.
+  intros (A1 & A2 & A3 & A4 & A5 & A6 & A7 & A8 & A9 & A10) (B1 & B2 & B3 & B4 & B5 & B6 & B7 & B8 & B9 & B10).
+  repeat split; congruence.
+Qed.
+
+Lemma osame_consume p n : osame p (consume_output p n).
+Proof. unfold consume_output. destruct (len (output p) - output_start p <=? n); repeat split. Qed.
+
+Lemma osame_views p p' : osame p p' ->
+  stream_buffer p' = stream_buffer p /\ raw_bytes p' = raw_bytes p /\ sinput_space p' = sinput_space p /\
+  pkeep p p' /\ psize p' = psize p /\ is_record_boundary p' = is_record_boundary p.
+Proof.
+  intros (A1 & A2 & A3 & A4 & A5 & A6 & A7 & A8 & A9 & A10).
+  unfold stream_buffer, raw_bytes, sinput_space, pkeep, psize, stream_buffer, raw_bytes, is_record_boundary.
+  rewrite A1, A2, A3, A4, A5, A6, A7, A8, A9. repeat split.
+Qed.
+
+Lemma consume_output_all p n : len (output_buffer p) <= n -> output_buffer (consume_output p n) = [].
+Proof.
+  unfold output_buffer, consume_output. rewrite len_drop. intros H.
+  destruct (N.leb_spec (len (output p) - output_start p) n) as [_|?]; [|lia]. cbn [output output_start]. reflexivity.
+Qed.
+
+Lemma output_empty p : RI p -> output_buffer p = [] -> output p = [].
+Proof.
+  intros (_ & _ & _ & _ & H5 & H6) E. apply H6. apply (f_equal len) in E. unfold output_buffer in E.
+  rewrite len_drop, len_nil in E. lia.
+Qed.
+
+Lemma compress_views p : RI p ->
+  RI (compress p) /\ stream_buffer (compress p) = stream_buffer p /\ raw_bytes (compress p) = raw_bytes p /\
+  output_buffer (compress p) = output_buffer p /\ pkeep p (compress p) /\ psize (compress p) = psize p.
+Proof.
+  intros H. pose proof (compress_abs p H) as A.
+  pose proof (f_equal a_parsed A) as A1. pose proof (f_equal a_raw A) as A2. pose proof (f_equal a_out A) as A3.
+  pose proof (f_equal a_B A) as A4. cbn [abs acompress a_parsed a_raw a_out a_B] in A1, A2, A3, A4.
+  split; [apply compress_RI; exact H|]. split; [exact A1|]. split; [exact A2|]. split; [exact A3|].
+  split; [|unfold psize; rewrite A1, A2; reflexivity].
+  split; [reflexivity|]. split; [reflexivity|exact A4].
+Qed.
+
+Lemma consume_stream_views p k : RI p ->
+  RI (consume_stream p k) /\ raw_bytes (consume_stream p k) = raw_bytes p /\ pkeep p (consume_stream p k) /\
+  (psize (consume_stream p k) + N.to_nat (N.min k (len (stream_buffer p))) = psize p)%nat.
+Proof.
+  intros H. pose proof (consume_stream_abs p k H) as A.
+  pose proof (f_equal a_parsed A) as A1. pose proof (f_equal a_raw A) as A2.
+  cbn [abs aconsume_stream a_parsed a_raw] in A1, A2.
+  split; [apply consume_stream_RI; exact H|]. split; [exact A2|]. split; [repeat split|].
+  unfold psize. rewrite A1, A2. pose proof (len_drop (N.min k (len (stream_buffer p))) (stream_buffer p)) as L.
+  unfold len in *. lia.
+Qed.
+
+(* set_stream, when accepted *)
+Lemma set_stream_views p s p' : pgood p -> (match s with Some x => is_input_stream x = true | None => True end) ->
+  set_stream p s = SetOk p' ->
+  pgood p' /\ sreq p' = sreq p /\ stream p' = s /\ len (buffer p') = len (buffer p) /\ (psize p' <= psize p)%nat /\
+  output_buffer p' = output_buffer p /\ is_record_boundary p' = is_record_boundary p.
+Proof.
+  intros (G1 & G2 & G3 & G4) Hs E. pose proof (set_stream_refines p s G1) as R. rewrite E in R.
+  unfold aset_stream in R. change (a_req (abs p)) with (sreq p) in R. change (a_stream (abs p)) with (stream p) in R.
+  destruct (accepts (r_role (sreq p)) (stream p) s) as [[|]|]; try contradiction.
+  destruct (optN_eqb s (stream p)) eqn:Eo.
+  - destruct R as [R1 R2].
+    assert (Es : stream p' = s).
+    { pose proof (f_equal a_stream R2) as X. cbn [abs a_stream] in X. rewrite X.
+      destruct s as [x|], (stream p) as [y|]; cbn [optN_eqb] in Eo; try discriminate; [|reflexivity].
+      apply N.eqb_eq in Eo. congruence. }
+    pose proof (f_equal a_parsed R2) as X1. pose proof (f_equal a_raw R2) as X2. pose proof (f_equal a_B R2) as X3.
+    pose proof (f_equal a_req R2) as X4. pose proof (f_equal a_out R2) as X5.
+    pose proof (f_equal a_prem R2) as X6. pose proof (f_equal a_pad R2) as X7.
+    cbn [abs a_parsed a_raw a_B a_req a_out a_prem a_pad] in X1, X2, X3, X4, X5, X6, X7.
+    split; [|split; [exact X4|split; [exact Es|split; [exact X3|split; [unfold psize; rewrite X1, X2; lia|split; [exact X5|]]]]]].
+    + split; [exact R1|]. split; [unfold stream_ok; rewrite Es; destruct s; [exact Hs|exact I]|].
+      split; [rewrite X2; exact G3|rewrite X3; exact G4].
+    + unfold is_record_boundary. rewrite X6, X7. reflexivity.
+  - destruct R as [R1 R2].
+    pose proof (f_equal a_parsed R2) as X1. pose proof (f_equal a_raw R2) as X2. pose proof (f_equal a_B R2) as X3.
+    pose proof (f_equal a_req R2) as X4. pose proof (f_equal a_out R2) as X5. pose proof (f_equal a_stream R2) as X0.
+    pose proof (f_equal a_prem R2) as X6. pose proof (f_equal a_pad R2) as X7.
+    cbn [abs a_parsed a_raw a_B a_req a_out a_stream a_prem a_pad] in X0, X1, X2, X3, X4, X5, X6, X7.
+    split; [|split; [exact X4|split; [exact X0|split; [exact X3|split; [unfold psize; rewrite X1, X2; cbn [length]; lia|split; [exact X5|]]]]]].
+    + split; [exact R1|]. split; [unfold stream_ok; rewrite X0; destruct s; [exact Hs|exact I]|].
+      split; [rewrite X2; exact G3|rewrite X3; exact G4].
+    + unfold is_record_boundary. rewrite X6, X7. reflexivity.
+Qed.
+
+(* ------------------------------------------------------------------------------------------ *)
+(* Part F: Request::poll_output, poll_input                                                     *)
+(* ------------------------------------------------------------------------------------------ *)
+
+Definition okeep (r r' : rstate) : Prop :=
+  RI (rsp r') /\ osame (rsp r) (rsp r') /\ rwriteable r' = rwriteable r.
+
+Lemma okeep_rgood r r' : rgood r -> okeep r r' -> rgood r' /\ pkeep (rsp r) (rsp r') /\ rsize r' = rsize r.
+Proof.
+  intros G (R' & O & W). destruct (osame_views _ _ O) as (V1 & V2 & V3 & V4 & V5 & V6).
+  split; [|split; [exact V4|exact V5]].
+  destruct r' as [p' wr' lk']. cbn [rsp rwriteable] in *. apply (rgood_transfer r); try assumption.
+  rewrite V2. apply G.
+Qed.
+
+Lemma poll_output_ok : forall fuel r w, RI (rsp r) ->
+  (length (wscript w) + (match output_buffer (rsp r) with [] => 0 | _ => 1 end) + 1 <= fuel)%nat ->
+  match poll_output fuel r w with
+  | (PReady (inl _), r', w') => okeep r r' /\ wstep w w' /\ output_buffer (rsp r') = []
+  | (PReady (inr k), r', w') => okeep r r' /\ wstep w w' /\ (k = EK_WriteZero \/ k = EK_Transport)
+  | (PWake, r', w') => okeep r r' /\ wstep w w' /\ (length (wscript w') < length (wscript w))%nat
+  | (PBlock, _, _) => False
+  end.
+Proof.
+  induction fuel as [|f IH]; intros r w HRI Hf; [lia|]. cbn [poll_output].
+  assert (SELF : forall lk, okeep r (mkR (rsp r) (rwriteable r) lk)).
+  { intros lk. split; [exact HRI|]. split; [apply osame_refl|reflexivity]. }
+  destruct (output_buffer (rsp r)) as [|x out] eqn:Eo.
+  { split; [apply SELF|]. split; [apply wstep_refl|exact Eo]. }
+  pose proof (t_poll_write_spec (x :: out) w ltac:(discriminate)) as P.
+  destruct (t_poll_write (x :: out) w) as [[[n|k]| |] w1].
+  - destruct P as (S1 & Hn & Hw & Hz).
+    destruct (N.eqb_spec n 0) as [E0|E0].
+    { split; [apply SELF|]. split; [exact S1|left; reflexivity]. }
+    set (r1 := mkR (consume_output (rsp r) n) (rwriteable r) true).
+    assert (R1 : RI (rsp r1)) by (apply consume_output_RI; exact HRI).
+    assert (K1 : okeep r r1).
+    { split; [exact R1|]. split; [apply osame_consume|reflexivity]. }
+    assert (Hf' : (length (wscript w1) + (match output_buffer (rsp r1) with [] => 0 | _ => 1 end) + 1 <= f)%nat).
+    { destruct Hw as [(W1 & W2 & W3)|W].
+      - subst r1. cbn [rsp]. rewrite consume_output_all by (rewrite Eo; lia). rewrite W2. rewrite W1 in Hf. cbn [length] in *. lia.
+      - destruct (output_buffer (rsp r1)); lia. }
+    specialize (IH r1 w1 R1 Hf').
+    assert (T : forall r', okeep r1 r' -> okeep r r').
+    { intros r' (A1 & A2 & A3). destruct K1 as (B1 & B2 & B3). split; [exact A1|]. split; [eapply osame_trans; eassumption|congruence]. }
+    destruct (poll_output f r1 w1) as [[[[u|k]| |] r2] w2].
+    + destruct IH as (I1 & I2 & I3). split; [apply T; exact I1|]. split; [eapply wstep_trans; eassumption|exact I3].
+    + destruct IH as (I1 & I2 & I3). split; [apply T; exact I1|]. split; [eapply wstep_trans; eassumption|exact I3].
+    + destruct IH as (I1 & I2 & I3). split; [apply T; exact I1|]. split; [eapply wstep_trans; eassumption|].
+      pose proof (ws_w _ _ S1). lia.
+    + contradiction.
+  - destruct P as (S1 & Hw & Hk). split; [apply SELF|]. split; [exact S1|right; exact Hk].
+  - destruct P as (S1 & Hw). split; [apply SELF|]. split; [exact S1|exact Hw].
+  - contradiction.
+Qed.
+
+(* relation between a Request (and the world) before and after an operation: the invariant is kept,
+   request / stream / buffer size are kept, and the bytes still to be looked at (buffered + with the client)
+   shrink at least by what was delivered to the handler *)
+Definition ckeep (r : rstate) (w : world) (extra : nat) (r' : rstate) (w' : world) (deliv : nat) : Prop :=
+  rgood r' /\ wstep w w' /\ pkeep (rsp r) (rsp r') /\ (rsize r' + nb w' + deliv <= rsize r + nb w + extra)%nat.
+
+Lemma ckeep_refl r w : rgood r -> ckeep r w 0 r w 0.
+Proof. intros G. split; [exact G|]. split; [apply wstep_refl|]. split; [apply pkeep_refl|lia]. Qed.
+
+Lemma ckeep_trans r w e r1 w1 d1 r2 w2 d2 :
+  ckeep r w e r1 w1 d1 -> ckeep r1 w1 0 r2 w2 d2 -> ckeep r w e r2 w2 (d1 + d2).
+Proof.
+  intros (A1 & A2 & A3 & A4) (B1 & B2 & B3 & B4). split; [exact B1|]. split; [eapply wstep_trans; eassumption|].
+  split; [eapply pkeep_trans; eassumption|lia].
+Qed.
+
+Lemma ckeep_weaken r w e r' w' d d' : (d' <= d)%nat -> ckeep r w e r' w' d -> ckeep r w e r' w' d'.
+Proof. intros H (A1 & A2 & A3 & A4). split; [exact A1|split; [exact A2|split; [exact A3|lia]]]. Qed.
+
+Lemma ckeep_world r w e r' w' d w'' : ckeep r w e r' w' d -> wstep w' w'' -> ckeep r w e r' w'' d.
+Proof.
+  intros (A1 & A2 & A3 & A4) S. split; [exact A1|]. split; [eapply wstep_trans; eassumption|]. split; [exact A3|].
+  pose proof (ws_b _ _ S). lia.
+Qed.
+
+Lemma ckeep_okeep r w r' w' : rgood r -> okeep r r' -> wstep w w' -> ckeep r w 0 r' w' 0.
+Proof.
+  intros G K S. destruct (okeep_rgood r r' G K) as (G' & K' & Z). split; [exact G'|]. split; [exact S|]. split; [exact K'|].
+  pose proof (ws_b _ _ S). lia.
+Qed.
+
+Lemma perr_kind_range e : 1 <= perr_kind e <= 7.
+Proof. destruct e; cbn [perr_kind]; unfold EK_Aborted, EK_InvalidData, EK_Other; lia. Qed.
+
+(* the result of a parse, as a Request *)
+Lemma sparse_ckeep r w new dest p' s lk : rgood r -> sparse_keeps (rsp r) new dest p' s ->
+  ckeep r w (length new) (mkR p' (rwriteable r) lk) w (N.to_nat (dcount dest s)) /\
+  (dest <> None -> stream_buffer p' = []).
+Proof.
+  intros G (K1 & K2 & K3 & K4 & K5 & K6 & K7). split; [|exact K6].
+  split; [apply (rgood_transfer r); try assumption; try reflexivity; repeat split; assumption|].
+  split; [apply wstep_refl|]. split; [repeat split; assumption|].
+  unfold rsize, psize. cbn [rsp]. unfold len in K7. lia.
+Qed.
+
+Lemma set_writeable_rgood p lk : rgood (mkR p false lk) -> is_final_stream (mkR p false lk) = true -> rgood (mkR p true lk).
+Proof.
+  intros [G W] F. split; [exact G|]. unfold wr_inv, wr_inv_at, is_final_stream in *. cbn [rsp rwriteable] in *.
+  destruct W as (x & Ex & Hx). rewrite Ex in *. symmetry. apply final_is_last; [exact Hx|].
+  destruct (next_input_stream (r_role (sreq p)) (Some x)); [discriminate|reflexivity].
+Qed.
+
+Section ConnTotal.
+Variable norm : bytes -> bytes.
+Variable maxc : N.
+
+Definition dlv (dest : option N) (n : N) : nat := match dest with Some _ => N.to_nat n | None => 0%nat end.
+
+Lemma input_loop_ok : forall fuel dest new r w, rgood r -> world_ok w -> bytes_ok new ->
+  len new <= sinput_space (rsp r) -> (dest <> None -> stream_buffer (rsp r) = []) ->
+  (length (wscript w) + nb w + 2 <= fuel)%nat ->
+  match input_loop maxc fuel dest new r w with
+  | (PReady (inl (n, b)), r', w') => ckeep r w (length new) r' w' (dlv dest n)
+  | (PReady (inr k), r', w') => ckeep r w (length new) r' w' 0 /\ 1 <= k <= 7
+  | (PWake, r', w') => ckeep r w (length new) r' w' 0 /\
+                       (length (rscript w') + length (wscript w') < length (rscript w) + length (wscript w))%nat
+  | (PBlock, r', w') => ckeep r w (length new) r' w' 0 /\ ~ ungated w'
+  end.
+Proof.
+  induction fuel as [|f IH]; intros dest new r w G Wok Hnew Hfit Hd Hf; [lia|].
+  cbn [input_loop].
+  pose proof (sparse_facts maxc (rsp r) new dest (proj1 (proj1 G)) (proj1 (proj2 (proj1 G)))
+                (proj1 (proj2 (proj2 (proj1 G)))) Hnew Hfit Hd) as SF.
+  destruct (sparse maxc (rsp r) new dest) as [p' s|p' e s|n]; [| |contradiction].
+  2:{ destruct (sparse_ckeep r w new dest p' s (rlock r) G SF) as [C _].
+      split; [eapply ckeep_weaken; [|exact C]; lia|apply perr_kind_range]. }
+  destruct (sparse_ckeep r w new dest p' s (rlock r) G SF) as [C HD].
+  destruct (s_end s || (0 <? s_stream s)) eqn:Edone.
+  { cbn [rwriteable]. replace (dlv dest (s_stream s)) with (N.to_nat (dcount dest s)) by (destruct dest; reflexivity).
+    destruct (rwriteable r) eqn:Ewr; cbn [negb andb]; [exact C|].
+    destruct (is_final_stream (mkR p' false (rlock r))) eqn:Efin; [|exact C].
+    destruct C as (C1 & C2 & C3 & C4). split; [apply set_writeable_rgood; assumption|]. split; [exact C2|]. split; [exact C3|exact C4]. }
+  set (r2 := mkR (compress p') (rwriteable r) (rlock r)).
+  assert (C2 : ckeep r w (length new) r2 w 0 /\ (dest <> None -> stream_buffer (rsp r2) = [])).
+  { destruct C as (C1 & C2 & C3 & C4). destruct (compress_views p' (proj1 (proj1 C1))) as (V1 & V2 & V3 & V4 & V5 & V6).
+    split; [|intros Hx; subst r2; cbn [rsp]; rewrite V2; apply HD; exact Hx].
+    split; [apply (rgood_transfer (mkR p' (rwriteable r) (rlock r))); try assumption; try reflexivity; rewrite V3; apply C1|].
+    split; [exact C2|]. split; [eapply pkeep_trans; [exact C3|exact V5]|].
+    unfold rsize in *. subst r2. cbn [rsp] in *. rewrite V6. lia. }
+  destruct C2 as [C2 HD2]. clearbody r2. clear C HD SF.
+  pose proof (poll_output_ok (S f) r2 w (proj1 (proj1 (proj1 C2))) ltac:(destruct (output_buffer (rsp r2)); lia)) as PO.
+  destruct (poll_output (S f) r2 w) as [[[[u|k]| |] r3] w0].
+  - destruct PO as (K3 & S3 & _).
+    assert (C3 : ckeep r w (length new) r3 w0 0).
+    { replace 0%nat with (0 + 0)%nat by reflexivity. eapply ckeep_trans; [exact C2|]. apply ckeep_okeep; [apply C2|exact K3|exact S3]. }
+    assert (HD3 : dest <> None -> stream_buffer (rsp r3) = []).
+    { intros Hx. destruct K3 as (_ & O & _). destruct (osame_views _ _ O) as (V1 & _). rewrite V1. apply HD2. exact Hx. }
+    pose proof (t_poll_read_spec (sinput_space (rsp r3)) w0) as PR.
+    assert (Wok0 : world_ok w0) by (apply (ws_ok _ _ S3 Wok)).
+    destruct (t_poll_read (sinput_space (rsp r3)) w0) as [[[b|k]| |] w1].
+    + destruct PR as (S4 & Hb & Hl & Hn).
+      destruct b as [|x b'].
+      { split; [eapply ckeep_world; eassumption|unfold EK_UnexpectedEof; lia]. }
+      assert (Hf' : (length (wscript w1) + nb w1 + 2 <= f)%nat).
+      { pose proof (ws_w _ _ S3). pose proof (ws_w _ _ S4). pose proof (ws_b _ _ S3). cbn [length] in Hn. lia. }
+      specialize (IH dest (x :: b') r3 w1 (proj1 C3) (ws_ok _ _ S4 Wok0) (Hb Wok0) Hl HD3 Hf').
+      assert (T : forall r' w' d, ckeep r3 w1 (length (x :: b')) r' w' d -> ckeep r w (length new) r' w' d).
+      { intros r' w' d (A1 & A2 & A3 & A4). destruct C3 as (B1 & B2 & B3 & B4).
+        split; [exact A1|]. split; [eapply wstep_trans; [exact B2|]; eapply wstep_trans; eassumption|].
+        split; [eapply pkeep_trans; eassumption|lia]. }
+      destruct (input_loop maxc f dest (x :: b') r3 w1) as [[[[[n b]|k]| |] r4] w2].
+      * apply T. exact IH.
+      * destruct IH as [I1 I2]. split; [apply T; exact I1|exact I2].
+      * destruct IH as [I1 I2]. split; [apply T; exact I1|].
+        pose proof (ws_w _ _ S3). pose proof (ws_w _ _ S4). pose proof (ws_r _ _ S3). pose proof (ws_r _ _ S4). lia.
+      * destruct IH as [I1 I2]. split; [apply T; exact I1|exact I2].
+    + destruct PR as (S4 & Hk). split; [eapply ckeep_world; eassumption|subst k; unfold EK_Transport; lia].
+    + destruct PR as (S4 & Hr). split; [eapply ckeep_world; eassumption|].
+      pose proof (ws_w _ _ S3). pose proof (ws_w _ _ S4). pose proof (ws_r _ _ S3). lia.
+    + destruct PR as (-> & NU). split; [exact C3|exact NU].
+  - destruct PO as (K3 & S3 & Hk). split.
+    + replace 0%nat with (0 + 0)%nat by reflexivity. eapply ckeep_trans; [exact C2|]. apply ckeep_okeep; [apply C2|exact K3|exact S3].
+    + destruct Hk as [->| ->]; unfold EK_WriteZero, EK_Transport; lia.
+  - destruct PO as (K3 & S3 & Hw). split.
+    + replace 0%nat with (0 + 0)%nat by reflexivity. eapply ckeep_trans; [exact C2|]. apply ckeep_okeep; [apply C2|exact K3|exact S3].
+    + pose proof (ws_r _ _ S3). lia.
+  - contradiction.
+Qed.
+
+Lemma poll_input_ok fuel dest r w : rgood r -> world_ok w -> (length (wscript w) + nb w + 2 <= fuel)%nat ->
+  match poll_input maxc fuel dest r w with
+  | (PReady (inl (n, b)), r', w') => ckeep r w 0 r' w' (dlv dest n)
+  | (PReady (inr k), r', w') => ckeep r w 0 r' w' 0 /\ 1 <= k <= 7
+  | (PWake, r', w') => ckeep r w 0 r' w' 0 /\
+                       (length (rscript w') + length (wscript w') < length (rscript w) + length (wscript w))%nat
+  | (PBlock, r', w') => ckeep r w 0 r' w' 0 /\ ~ ungated w'
+  end.
+Proof.
+  intros G Wok Hf.
+  assert (EMPTY : stream_buffer (rsp r) = [] ->
+    match (match poll_output fuel r w with
+           | (PReady (inl _), r', w') => input_loop maxc fuel dest [] r' w'
+           | (PReady (inr k), r', w') => (PReady (inr k), r', w')
+           | (PWake, r', w') => (PWake, r', w')
+           | (PBlock, r', w') => (PBlock, r', w')
+           end) with
+    | (PReady (inl (n, b)), r', w') => ckeep r w 0 r' w' (dlv dest n)
+    | (PReady (inr k), r', w') => ckeep r w 0 r' w' 0 /\ 1 <= k <= 7
+    | (PWake, r', w') => ckeep r w 0 r' w' 0 /\
+                         (length (rscript w') + length (wscript w') < length (rscript w) + length (wscript w))%nat
+    | (PBlock, r', w') => ckeep r w 0 r' w' 0 /\ ~ ungated w'
+    end).
+  { intros Esb.
+    pose proof (poll_output_ok fuel r w (proj1 (proj1 G)) ltac:(destruct (output_buffer (rsp r)); lia)) as PO.
+    destruct (poll_output fuel r w) as [[[[u|k]| |] r1] w1].
+    - destruct PO as (K1 & S1 & _). pose proof (ckeep_okeep r w r1 w1 G K1 S1) as C1.
+      assert (HD : dest <> None -> stream_buffer (rsp r1) = []).
+      { intros _. destruct K1 as (_ & O & _). destruct (osame_views _ _ O) as (V1 & _). rewrite V1. exact Esb. }
+      pose proof (input_loop_ok fuel dest [] r1 w1 (proj1 C1) (ws_ok _ _ S1 Wok) ltac:(constructor)
+                    ltac:(rewrite len_nil; lia) HD
+                    ltac:(pose proof (ws_w _ _ S1); pose proof (ws_b _ _ S1); lia)) as IL.
+      assert (T : forall r' w' d, ckeep r1 w1 (length (@nil N)) r' w' d -> ckeep r w 0 r' w' d).
+      { intros r' w' d C. cbn [length] in C. replace d with (0 + d)%nat by lia. eapply ckeep_trans; eassumption. }
+      destruct (input_loop maxc fuel dest [] r1 w1) as [[[[[n b]|k]| |] r2] w2].
+      + apply T. exact IL.
+      + destruct IL as [I1 I2]. split; [apply T; exact I1|exact I2].
+      + destruct IL as [I1 I2]. split; [apply T; exact I1|]. pose proof (ws_w _ _ S1). pose proof (ws_r _ _ S1). lia.
+      + destruct IL as [I1 I2]. split; [apply T; exact I1|exact I2].
+    - destruct PO as (K1 & S1 & Hk). split; [apply ckeep_okeep; assumption|].
+      destruct Hk as [->| ->]; unfold EK_WriteZero, EK_Transport; lia.
+    - destruct PO as (K1 & S1 & Hw). split; [apply ckeep_okeep; assumption|]. pose proof (ws_r _ _ S1). lia.
+    - contradiction. }
+  unfold poll_input. cbv zeta.
+  destruct dest as [[|pc]|]; destruct (stream_buffer (rsp r)) as [|x sb] eqn:Esb.
+  - apply ckeep_refl. exact G.
+  - apply ckeep_refl. exact G.
+  - apply EMPTY. reflexivity.
+  - set (n := N.min (N.pos pc) (len (x :: sb))).
+    destruct (consume_stream_views (rsp r) n (proj1 (proj1 G))) as (V1 & V2 & V3 & V4).
+    split; [apply (rgood_transfer r); try assumption; try reflexivity; rewrite V2; apply G|].
+    split; [apply wstep_refl|]. split; [exact V3|].
+    unfold rsize, dlv. cbn [rsp]. rewrite Esb in V4. replace (N.min n (len (x :: sb))) with n in V4 by (subst n; lia). lia.
+  - apply EMPTY. reflexivity.
+  - apply ckeep_refl. exact G.
+Qed.
+
+Lemma await_input_ok : forall fuel dest r w, rgood r -> world_ok w ->
+  (length (rscript w) + length (wscript w) + sm w + 1 <= fuel)%nat ->
+  match await_input maxc fuel dest r w with
+  | Ok (inl (n, b), r') w' => ckeep r w 0 r' w' (dlv dest n)
+  | Ok (inr k, r') w' => ckeep r w 0 r' w' 0 /\ 1 <= k <= 7
+  | Halt o w' => wstep w w' /\ okhalt w o
+  end.
+Proof.
+  induction fuel as [|f IH]; intros dest r w G Wok Hf; [lia|]. cbn [await_input].
+  pose proof (poll_input_ok (io_fuel w (len (buffer (rsp r)))) dest r w G Wok ltac:(rewrite io_fuel_eq; lia)) as PI.
+  assert (T : forall r1 w1 w1', ckeep r w 0 r1 w1 0 -> wstep w1 w1' ->
+              (length (rscript w1') + length (wscript w1') + sm w1' + 1 <= f)%nat ->
+              match await_input maxc f dest r1 w1' with
+              | Ok (inl (n, b), r') w' => ckeep r w 0 r' w' (dlv dest n)
+              | Ok (inr k, r') w' => ckeep r w 0 r' w' 0 /\ 1 <= k <= 7
+              | Halt o w' => wstep w w' /\ okhalt w o
+              end).
+  { intros r1 w1 w1' C S Hf'. pose proof (ckeep_world _ _ _ _ _ _ _ C S) as C'.
+    pose proof C' as (C1 & C2 & C3 & C4).
+    specialize (IH dest r1 w1' C1 (ws_ok _ _ C2 Wok) Hf').
+    destruct (await_input maxc f dest r1 w1') as [[[[n b]|k] r2] w2|o w2].
+    - replace (dlv dest n) with (0 + dlv dest n)%nat by lia. eapply ckeep_trans; [exact C'|exact IH].
+    - destruct IH as [I1 I2]. split; [|exact I2]. replace 0%nat with (0 + 0)%nat by lia.
+      eapply ckeep_trans; [exact C'|exact I1].
+    - destruct IH as [I1 I2]. split; [eapply wstep_trans; eassumption|eapply okhalt_step; eassumption]. }
+  destruct (poll_input maxc (io_fuel w (len (buffer (rsp r)))) dest r w) as [[[[[n b]|k]| |] r1] w1].
+  - exact PI.
+  - exact PI.
+  - destruct PI as [C Hs]. unfold on_wake. cbn [andb]. apply (T r1 w1 (w_bump w1) C (wstep_bump w1)).
+    destruct C as (_ & S & _). pose proof (sm_step _ _ (wstep_trans _ _ _ S (wstep_bump w1))).
+    change (rscript (w_bump w1)) with (rscript w1). change (wscript (w_bump w1)) with (wscript w1). lia.
+  - destruct PI as [C NU]. unfold on_block.
+    destruct (negb (stop_at w1 =? 0) && negb (stopped w1)) eqn:Ec.
+    + apply (T r1 w1 (w_stop w1) C (wstep_stop w1)). destruct C as (_ & S & _).
+      pose proof (ws_r _ _ S). pose proof (ws_w _ _ S). rewrite sm_stop.
+      change (rscript (w_stop w1)) with (rscript w1). change (wscript (w_stop w1)) with (wscript w1).
+      assert (sm w = 1%nat); [|lia].
+      unfold sm. destruct (stopped w) eqn:Es; [|reflexivity]. rewrite (ws_stop _ _ S Es) in Ec.
+      rewrite andb_false_r in Ec. discriminate.
+    + destruct C as (_ & S & _). split; [exact S|]. apply (okhalt_step _ _ _ S). right. split; [reflexivity|exact NU].
+Qed.
+
+Lemma await_input_io dest r w : rgood r -> world_ok w ->
+  match await_input maxc (io_fuel w 0) dest r w with
+  | Ok (inl (n, b), r') w' => ckeep r w 0 r' w' (dlv dest n)
+  | Ok (inr k, r') w' => ckeep r w 0 r' w' 0 /\ 1 <= k <= 7
+  | Halt o w' => wstep w w' /\ okhalt w o
+  end.
+Proof. intros G Wok. apply await_input_ok; try assumption. rewrite io_fuel_eq. unfold sm. destruct (stopped w); lia. Qed.
+
+(* ---- Request::writeable ---- *)
+Lemma last_opt_facts role l : last_opt role = Some l -> is_input_stream l = true /\ In l (role_input_streams role).
+Proof.
+  destruct (role_cases role) as [->|[->|[->|[E _]]]].
+  - vm_compute. intros H. inversion H. split; [reflexivity|tauto].
+  - vm_compute. discriminate.
+  - vm_compute. intros H. inversion H. split; [reflexivity|tauto].
+  - unfold last_opt. rewrite E. discriminate.
+Qed.
+
+Lemma set_stream_accepted p s : accepts (r_role (sreq p)) (stream p) s = Some true -> exists p', set_stream p s = SetOk p'.
+Proof.
+  intros A. pose proof (set_stream_spec p s) as S. rewrite A in S.
+  destruct (optN_eqb s (stream p)); [exists p; exact S|]. destruct S as (p' & E & _). exists p'. exact E.
+Qed.
+
+Lemma set_stream_ok_accepted p s p' : set_stream p s = SetOk p' -> accepts (r_role (sreq p)) (stream p) s = Some true.
+Proof.
+  intros E. pose proof (set_stream_spec p s) as S.
+  destruct (accepts (r_role (sreq p)) (stream p) s) as [[|]|]; [reflexivity|congruence|congruence].
+Qed.
+
+(* relation used at the level of handlers: the active stream may change *)
+Definition hkeep (r : rstate) (w : world) (r' : rstate) (w' : world) : Prop :=
+  rgood r' /\ wstep w w' /\ sreq (rsp r') = sreq (rsp r) /\ len (buffer (rsp r')) = len (buffer (rsp r)) /\
+  (rsize r' + nb w' <= rsize r + nb w)%nat.
+
+Lemma hkeep_refl r w : rgood r -> hkeep r w r w.
+Proof. intros G. split; [exact G|]. split; [apply wstep_refl|]. repeat split. lia. Qed.
+
+Lemma hkeep_trans r w r1 w1 r2 w2 : hkeep r w r1 w1 -> hkeep r1 w1 r2 w2 -> hkeep r w r2 w2.
+Proof.
+  intros (A1 & A2 & A3 & A4 & A5) (B1 & B2 & B3 & B4 & B5). split; [exact B1|]. split; [eapply wstep_trans; eassumption|].
+  split; [congruence|]. split; [congruence|lia].
+Qed.
+
+Lemma ckeep_hkeep r w r' w' d : ckeep r w 0 r' w' d -> hkeep r w r' w' /\ stream (rsp r') = stream (rsp r).
+Proof.
+  intros (A1 & A2 & (K1 & K2 & K3) & A4). split; [|exact K2]. split; [exact A1|]. split; [exact A2|].
+  split; [exact K1|]. split; [exact K3|lia].
+Qed.
+
+Lemma hkeep_world r w r' w' w'' : hkeep r w r' w' -> wstep w' w'' -> hkeep r w r' w''.
+Proof.
+  intros (A1 & A2 & A3 & A4 & A5) S. split; [exact A1|]. split; [eapply wstep_trans; eassumption|].
+  split; [exact A3|]. split; [exact A4|]. pose proof (ws_b _ _ S). lia.
+Qed.
+
+Lemma do_writeable_ok r w : rgood r -> world_ok w ->
+  match do_writeable maxc r w with
+  | Ok (e, r') w' => hkeep r w r' w' /\ stream (rsp r') = last_opt (r_role (sreq (rsp r))) /\
+                     match e with Some k => 1 <= k <= 7 | None => True end
+  | Halt o w' => wstep w w' /\ okhalt w o
+  end.
+Proof.
+  intros G Wok. unfold do_writeable. pose proof (proj2 G) as W. unfold wr_inv, wr_inv_at in W.
+  destruct (rwriteable r) eqn:Ewr.
+  { split; [apply hkeep_refl; exact G|]. split; [exact W|exact I]. }
+  destruct W as (x & Ex & Hx).
+  change (match rev (role_input_streams (r_role (sreq (rsp r)))) with x :: _ => Some x | [] => None end)
+    with (last_opt (r_role (sreq (rsp r)))).
+  pose proof (accepts_last _ x Hx) as A. rewrite <- Ex in A.
+  destruct (set_stream_accepted (rsp r) _ A) as (p' & E). rewrite E.
+  assert (Hl : match last_opt (r_role (sreq (rsp r))) with Some y => is_input_stream y = true | None => True end).
+  { destruct (last_opt (r_role (sreq (rsp r)))) as [l|] eqn:El; [|exact I]. apply (last_opt_facts _ _ El). }
+  destruct (set_stream_views (rsp r) _ p' (proj1 G) Hl E) as (V1 & V2 & V3 & V4 & V5 & _).
+  set (r1 := mkR p' false (rlock r)).
+  assert (G1 : rgood r1).
+  { split; [exact V1|]. unfold wr_inv, wr_inv_at. subst r1. cbn [rsp rwriteable]. rewrite V2, V3.
+    destruct (last_opt (r_role (sreq (rsp r)))) as [l|] eqn:El.
+    - exists l. split; [reflexivity|]. apply (last_opt_facts _ _ El).
+    - destruct (in_streams_cases _ x Hx) as [[Er _]|[[Er _]|[Er _]]]; rewrite Er in El; vm_compute in El; discriminate. }
+  assert (H1 : hkeep r w r1 w).
+  { split; [exact G1|]. split; [apply wstep_refl|]. split; [exact V2|]. split; [exact V4|]. unfold rsize. subst r1. cbn [rsp]. lia. }
+  pose proof (await_input_io None r1 w G1 Wok) as AI.
+  destruct (await_input maxc (io_fuel w 0) None r1 w) as [[[[n b]|k] r2] w2|o w2].
+  - destruct (ckeep_hkeep _ _ _ _ _ AI) as [H2 S2]. split; [eapply hkeep_trans; eassumption|]. split; [|exact I].
+    rewrite S2. exact V3.
+  - destruct AI as [AI Hk]. destruct (ckeep_hkeep _ _ _ _ _ AI) as [H2 S2]. split; [eapply hkeep_trans; eassumption|].
+    split; [rewrite S2; exact V3|exact Hk].
+  - exact AI.
+Qed.
+
+(* ---- Request::record_boundary ---- *)
+Definition pck (p : sp) (w : world) (extra : nat) (p' : sp) (w' : world) : Prop :=
+  pgood p' /\ wstep w w' /\ pkeep p p' /\ (psize p' + nb w' <= psize p + nb w + extra)%nat.
+
+Lemma sparse_pck p w new dest p' s : pgood p -> sparse_keeps p new dest p' s -> pck p w (length new) p' w.
+Proof.
+  intros G (K1 & K2 & K3 & K4 & K5 & K6 & K7).
+  split; [apply (pgood_transfer p); try assumption; repeat split; assumption|].
+  split; [apply wstep_refl|]. split; [repeat split; assumption|]. unfold psize. unfold len in K7. lia.
+Qed.
+
+Definition bl_after (f : nat) (r : rstate) (w : world) (p' : sp) : res (option N * rstate) :=
+  let r1 := mkR p' (rwriteable r) (rlock r) in
+  if is_record_boundary p' then Ok (None, r1) w
+  else
+    let p2 := compress p' in
+    let r2 := mkR p2 (rwriteable r) (rlock r) in
+    match await_read (io_fuel w 0) false (sinput_space p2) w with
+    | Ok (inl []) w' => Ok (Some EK_UnexpectedEof, r2) w'
+    | Ok (inl b) w' => boundary_loop maxc f b r2 w'
+    | Ok (inr k) w' => Ok (Some k, r2) w'
+    | Halt o w' => Halt o w'
+    end.
+
+Lemma boundary_loop_S f new r w :
+  boundary_loop maxc (S f) new r w =
+  match sparse maxc (rsp r) new None with
+  | StPanic n => Halt (OPanic (1000 + n)) w
+  | StOk p' _ => bl_after f r w p'
+  | StErr p' EAbortRequest _ => bl_after f r w p'
+  | StErr p' e _ => Ok (Some (perr_kind e), mkR p' (rwriteable r) (rlock r)) w
+  end.
+Proof. reflexivity. Qed.
+
+Definition bl_post (r : rstate) (w : world) (extra : nat) (x : res (option N * rstate)) : Prop :=
+  match x with
+  | Ok (e, r') w' => pck (rsp r) w extra (rsp r') w' /\ rwriteable r' = rwriteable r /\
+                     match e with Some k => 1 <= k <= 7 | None => True end
+  | Halt o w' => wstep w w' /\ okhalt w o
+  end.
+
+Lemma boundary_loop_ok : forall fuel new r w, pgood (rsp r) -> world_ok w -> bytes_ok new ->
+  len new <= sinput_space (rsp r) -> (nb w + 1 <= fuel)%nat ->
+  bl_post r w (length new) (boundary_loop maxc fuel new r w).
+Proof.
+  induction fuel as [|f IH]; intros new r w G Wok Hnew Hfit Hf; [lia|]. rewrite boundary_loop_S.
+  pose proof (sparse_facts maxc (rsp r) new None (proj1 G) (proj1 (proj2 G)) (proj1 (proj2 (proj2 G))) Hnew Hfit
+                ltac:(intros X; contradiction)) as SF.
+  assert (AFTER : forall p' s, sparse_keeps (rsp r) new None p' s -> bl_post r w (length new) (bl_after f r w p')).
+  { intros p' s K. pose proof (sparse_pck (rsp r) w new None p' s G K) as C.
+    unfold bl_after. cbv zeta. destruct (is_record_boundary p').
+    { cbn [bl_post rsp rwriteable]. split; [exact C|]. split; [reflexivity|exact I]. }
+    destruct C as (C1 & C2 & C3 & C4).
+    destruct (compress_views p' (proj1 C1)) as (V1 & V2 & V3 & V4 & V5 & V6).
+    assert (C' : pck (rsp r) w (length new) (compress p') w).
+    { split; [apply (pgood_transfer p'); try assumption; rewrite V3; apply C1|]. split; [exact C2|].
+      split; [eapply pkeep_trans; eassumption|]. rewrite V6. exact C4. }
+    pose proof (await_read_io false (sinput_space (compress p')) w 0) as AR.
+    destruct (await_read (io_fuel w 0) false (sinput_space (compress p')) w) as [[b|k] w1|o w1].
+    - destruct AR as (S1 & Hb & Hl & Hn).
+      assert (CW : pck (rsp r) w (length new) (compress p') w1).
+      { destruct C' as (D1 & D2 & D3 & D4). split; [exact D1|]. split; [exact (wstep_trans _ _ _ D2 S1)|].
+        split; [exact D3|]. pose proof (ws_b _ _ S1). lia. }
+      destruct b as [|x b'].
+      + cbn [bl_post rsp rwriteable]. split; [exact CW|]. split; [reflexivity|unfold EK_UnexpectedEof; lia].
+      + set (r2 := mkR (compress p') (rwriteable r) (rlock r)).
+        specialize (IH (x :: b') r2 w1 (proj1 C') (ws_ok _ _ S1 Wok) (Hb Wok) Hl ltac:(cbn [length] in Hn; lia)).
+        unfold bl_post in *. destruct (boundary_loop maxc f (x :: b') r2 w1) as [[e r3] w3|o w3].
+        * destruct IH as ((I1 & I2 & I3 & I4) & I5 & I6). split; [|split; [exact I5|exact I6]].
+          destruct C' as (D1 & D2 & D3 & D4). subst r2. cbn [rsp] in *.
+          split; [exact I1|]. split; [eapply wstep_trans; [exact S1|exact I2]|]. split; [eapply pkeep_trans; eassumption|lia].
+        * destruct IH as [I1 I2]. split; [eapply wstep_trans; eassumption|eapply okhalt_step; eassumption].
+    - destruct AR as (S1 & Hk). cbn [bl_post rsp rwriteable].
+      split; [|split; [reflexivity|subst k; unfold EK_Transport; lia]].
+      destruct C' as (D1 & D2 & D3 & D4). split; [exact D1|]. split; [exact (wstep_trans _ _ _ D2 S1)|].
+      split; [exact D3|]. pose proof (ws_b _ _ S1). lia.
+    - exact AR. }
+  destruct (sparse maxc (rsp r) new None) as [p' s|p' e s|n]; [apply (AFTER p' s SF)| |contradiction].
+  assert (ERR : bl_post r w (length new) (Ok (Some (perr_kind e), mkR p' (rwriteable r) (rlock r)) w)).
+  { cbn [bl_post rsp rwriteable]. split; [apply (sparse_pck _ _ _ _ _ _ G SF)|]. split; [reflexivity|apply perr_kind_range]. }
+  destruct e; try exact ERR. apply (AFTER p' s SF).
+Qed.
+
+Lemma record_boundary_ok r w : pgood (rsp r) -> world_ok w -> bl_post r w 0 (record_boundary maxc r w).
+Proof.
+  intros G Wok. unfold record_boundary. destruct (is_record_boundary (rsp r)).
+  - cbn [bl_post]. split; [|split; [reflexivity|exact I]].
+    split; [exact G|]. split; [apply wstep_refl|]. split; [apply pkeep_refl|lia].
+  - apply (boundary_loop_ok _ [] r w G Wok); [apply Forall_nil|rewrite len_nil; lia|change (nb w + 1 <= nb w + 4)%nat; lia].
+Qed.
+
+(* ---- Request::close ---- *)
+Definition close_post (p : sp) (w : world) (x : res (parser + N)) : Prop :=
+  match x with
+  | Ok (inl rp) w' => parser_ok rp /\ st rp = Header /\ wstep w w' /\ (length (held rp) + nb w' <= psize p + nb w)%nat
+  | Ok (inr _) w' => wstep w w'
+  | Halt o w' => wstep w w' /\ okhalt w o
+  end.
+
+Lemma close_tail_ok r disc code w : pgood (rsp r) -> world_ok w -> In disc EXITSTATUS_VALUES ->
+  close_post (rsp r) w (close_tail maxc r disc code w).
+Proof.
+  intros G Wok Hd. unfold close_tail.
+  destruct (set_stream_accepted (rsp r) None eq_refl) as (p2 & E). rewrite E.
+  destruct (set_stream_views (rsp r) None p2 G I E) as (V1 & V2 & V3 & V4 & V5 & _).
+  set (r2 := mkR p2 (rwriteable r) (rlock r)).
+  pose proof (record_boundary_ok r2 w V1 Wok) as RB. unfold bl_post in RB.
+  destruct (record_boundary maxc r2 w) as [[[k2|] r3] w2|o w2]; [apply RB| |exact RB].
+  destruct RB as ((B1 & B2 & B3 & B4) & _ & _). subst r2. cbn [rsp] in *.
+  destruct (epilogue (r_id (sreq (rsp r3))) disc code (if rwriteable r3 then ROLE_OUTPUT_STREAMS else [])) as [ep|] eqn:Eep;
+    [|exfalso; exact (epilogue_some _ _ _ _ Hd Eep)].
+  pose proof (await_write_all_io false (output_buffer (rsp r3)) w2 (len (output_buffer (rsp r3)))) as W1.
+  destruct (await_write_all (io_fuel w2 (len (output_buffer (rsp r3)))) false (output_buffer (rsp r3)) w2) as [[k3|] w3|o w3].
+  - cbn [close_post]. eapply wstep_trans; eassumption.
+  - set (p4 := match output_buffer (rsp r3) with [] => rsp r3 | _ => consume_output (rsp r3) (len (output_buffer (rsp r3))) end).
+    pose proof (await_write_all_io false ep w3 (len ep)) as W2.
+    destruct (await_write_all (io_fuel w3 (len ep)) false ep w3) as [[k4|] w4|o w4].
+    + cbn [close_post]. eapply wstep_trans; [exact B2|]. eapply wstep_trans; eassumption.
+    + assert (S4 : wstep w w4) by (eapply wstep_trans; [exact B2|]; eapply wstep_trans; eassumption).
+      destruct (N.land (r_flags (sreq p4)) FLAG_KeepConn =? FLAG_KeepConn); [|exact S4].
+      assert (P4 : RI p4 /\ osame (rsp r3) p4 /\ output_buffer p4 = []).
+      { subst p4. destruct (output_buffer (rsp r3)) as [|x out] eqn:Eo.
+        - split; [apply B1|]. split; [apply osame_refl|exact Eo].
+        - split; [apply consume_output_RI; apply B1|]. split; [apply osame_consume|].
+          apply consume_output_all. rewrite Eo. lia. }
+      destruct P4 as (R4 & O4 & E4). destruct (osame_views _ _ O4) as (U1 & U2 & U3 & U4 & U5 & U6).
+      unfold into_request_parser.
+      destruct (is_record_boundary p4) eqn:Eb; cbn [negb]; [|exact S4].
+      destruct (into_request_parser_ok p4 R4 Eb E4) as (rp & Erp & H1 & H2 & H3).
+      unfold into_request_parser in Erp. rewrite Eb in Erp. cbn [negb] in Erp. rewrite Erp.
+      cbn [abs a_raw a_B] in H1, H2. cbn [close_post].
+      destruct B1 as (Q1 & Q2 & Q3 & Q4). destruct U4 as (_ & _ & U4).
+      split; [|split; [exact H3|split; [exact S4|]]].
+      * split; [rewrite H3; exact I|]. split; [rewrite H3; exact I|]. rewrite H1, H2, U2, U4.
+        split; [exact Q3|]. split; [|exact Q4].
+        pose proof (RI_len_raw _ Q1). destruct Q1 as (T1 & T2 & T3 & T4 & _). lia.
+      * rewrite H1, U2. pose proof (ws_b _ _ W1). pose proof (ws_b _ _ W2). unfold psize in *. lia.
+    + destruct W2 as [W2 ->]. split; [|left; reflexivity]. eapply wstep_trans; [exact B2|]. eapply wstep_trans; eassumption.
+  - destruct W1 as [W1 ->]. split; [eapply wstep_trans; eassumption|left; reflexivity].
+Qed.
+
+Lemma do_close_ok r disc code w : rgood r -> world_ok w -> In disc EXITSTATUS_VALUES ->
+  close_post (rsp r) w (do_close maxc r disc code w).
+Proof.
+  intros G Wok Hd. unfold do_close. pose proof (do_writeable_ok r w G Wok) as DW.
+  destruct (do_writeable maxc r w) as [[e r1] w1|o w1]; [|exact DW].
+  destruct DW as ((H1 & H2 & H3 & H4 & H5) & _ & _).
+  assert (CT : close_post (rsp r) w (close_tail maxc r1 disc code w1)).
+  { pose proof (close_tail_ok r1 disc code w1 (proj1 H1) (ws_ok _ _ H2 Wok) Hd) as C.
+    unfold close_post in *. destruct (close_tail maxc r1 disc code w1) as [[rp|k] w2|o w2].
+    - destruct C as (C1 & C2 & C3 & C4). split; [exact C1|]. split; [exact C2|]. split; [eapply wstep_trans; eassumption|].
+      unfold rsize in H5. lia.
+    - eapply wstep_trans; eassumption.
+    - destruct C as [C1 C2]. split; [eapply wstep_trans; eassumption|eapply okhalt_step; eassumption]. }
+  destruct e as [k|]; [|exact CT]. destruct (k =? EK_Aborted); [exact CT|exact H2].
+Qed.
+End ConnTotal.
